@@ -4,12 +4,27 @@ from __future__ import annotations
 
 import hashlib
 
+import itertools
+import sys
+from pathlib import Path
+
 from lib import hx, unhx, show_list
+
+sys.path.insert(0, str(Path(__file__).resolve().parent.parent.parent / "translate"))
+import grs_stub  # noqa: E402
+
+grs_stub.install()   # before anything imports pycoin.symbols.grs: the Groestl checksum hash is the stand-in the model mirrors
 
 from pycoin.encoding import b58
 from pycoin.encoding.exceptions import EncodingError
 from pycoin.contrib import bech32m
 from pycoin.networks import parseable_str as ps
+
+from pycoin.coins.groestlcoin import parse as grs_parse  # noqa: E402
+from pycoin.symbols.btc import network as BTC  # noqa: E402
+from pycoin.symbols.grs import network as GRS  # noqa: E402
+from pycoin.symbols.ltc import network as LTC  # noqa: E402
+from pycoin.symbols.xtn import network as XTN  # noqa: E402
 
 MANIFEST = {
     "text": "Lean theorems over an executable model of to_long/from_long, b2a/a2b_base58, b2a/a2b_hashed_base58 and of bech32m.py "
@@ -25,7 +40,7 @@ MANIFEST = {
             "BIP350; witness in corpus, listed as a known finding). hashlib.sha256 is a function symbol in the theorems.",
     "technique": "Lean 4 proof (induction over an executable model, decide over generated tables) + differential correspondence model vs implementation",
 }
-RULE = ("ops b58enc/b58dec/b58cenc/b58cdec/b58cvalid/c11_pb58/bech32enc/bech32dec/bech32raw/bech32err/c11_pbech32/convertbits/bech32chk; "
+RULE = ("ops b58enc/b58dec/b58cenc/b58cdec/b58cvalid/c11_pb58/bech32enc/bech32dec/bech32raw/bech32err/c11_pbech32/convertbits/bech32chk/pstr_seq; "
         "boundary corpus (0..5 leading zero bytes alone and before data, empty string, look-alike and non-ASCII characters, every "
         "witness version 0..16 x program length 1..41, hrp length 1/83/84, total length 89/90/91, mixed case, wrong constant, "
         "non-zero padding) + seeded random valid and corrupted strings; distinct = distinct op line; trivial = input rejected at the "
@@ -33,6 +48,7 @@ RULE = ("ops b58enc/b58dec/b58cenc/b58cdec/b58cvalid/c11_pb58/bech32enc/bech32de
 ASSUMPTIONS = [
     "a Python str is represented by its UTF-8 bytes (Base58) / its code points (Bech32); strings with lone surrogates are not generated",
     "integer arguments of bech32m.encode/convertbits are non-negative (negative witver/data values are outside the model)",
+    "the optional groestlcoin_hash package is replaced by the stand-in of translate/grs_stub.py (sha256 with a prefix) in the harness, the translator and the model",
     "hashlib.sha256 is modelled by Pycoin.Hash.sha256 (validated against hashlib by the correspondence on b58c* ops; a function symbol in theorems)",
 ]
 TRUSTED = ["translate/gen_codecs.py reads BASE58_ALPHABET/BASE58_LOOKUP/CHARSET/BECH32M_CONST and the literals of bech32_polymod"]
@@ -83,6 +99,8 @@ def impl(op: str) -> str:
             if hrp is None and data is None and spec is None:
                 return "none"
             return "ok %s %s %d" % (s2h(hrp), show_list(data), spec)
+        if k == "pstr_seq":
+            return " | ".join(r if st in _CODEC_STEPS else "*" for st, r in zip(a[2].split(","), _pstr_run(h2s(a[1]), a[2].split(","), shared=True)))
         if k == "bech32err":
             return impl("bech32raw " + a[1]) + " ; " + impl("bech32raw " + a[2])
         if k == "c11_pbech32":
@@ -101,6 +119,60 @@ def impl(op: str) -> str:
     except Exception as e:  # noqa: BLE001
         return "err " + type(e).__name__
     return "bad-op"
+
+
+# ------------------------------------------------------------------ parseable_str: decoders applied to ONE object
+
+def _show_bytes(r):
+    return "none" if r is None else "ok " + hx(r)
+
+
+def _show_bech(r):
+    return "none" if r is None else "ok %s %d %s %d" % (s2h(r[0]), r[1], show_list(r[2]), r[3])
+
+
+_CODEC_STEPS = {
+    "b58": lambda p: _show_bytes(ps.parse_b58(p)),
+    "b58sha": lambda p: _show_bytes(ps.parse_b58_double_sha256(p)),
+    "b58grs": lambda p: _show_bytes(grs_parse.parse_b58_groestl(p)),
+    "bech32": lambda p: _show_bech(ps.parse_bech32(p)),
+}
+_NETS = {"btc": BTC, "grs": GRS, "ltc": LTC, "xtn": XTN}
+_NET_METHODS = ("address", "wif", "p2pkh", "p2sh", "p2pkh_segwit", "bip32", "secret")
+
+
+def _canon_obj(x):
+    """network-level parse results, reduced to something comparable"""
+    if x is None:
+        return "none"
+    for attr in ("address", "hwif", "as_text"):
+        f = getattr(x, attr, None)
+        if callable(f):
+            try:
+                return "%s:%s" % (type(x).__name__, f())
+            except Exception:  # noqa: BLE001
+                continue
+    return type(x).__name__
+
+
+def _net_step(name):
+    sym, meth = name[4:].split(".")
+    f = getattr(_NETS[sym].parse, meth)
+    return lambda p: _canon_obj(f(p))
+
+
+def _pstr_run(text: str, steps, shared: bool):
+    """apply the steps to one parseable_str (shared) or each to a fresh one"""
+    obj = ps.parseable_str(text)
+    out = []
+    for st in steps:
+        f = _CODEC_STEPS.get(st) or _net_step(st)
+        target = obj if shared else ps.parseable_str(text)
+        try:
+            out.append(f(target))
+        except Exception as e:  # noqa: BLE001
+            out.append("err " + type(e).__name__)
+    return out
 
 
 # ------------------------------------------------------------------ reference pieces used by the oracle only
@@ -348,6 +420,19 @@ def oracle(op: str, out: str):
             if r_o.split(" ")[-1] == r_t.split(" ")[-1]:
                 return "a string differing in 1..4 characters from a valid Bech32 string was accepted (same checksum constant)"
             return CROSS_CONST
+    elif k == "pstr_seq":
+        text, steps = h2s(a[1]), a[2].split(",")
+        shared = _pstr_run(text, steps, shared=True)
+        fresh = _pstr_run(text, steps, shared=False)
+        for i, (x, y) in enumerate(zip(shared, fresh)):
+            if x != y:
+                return ("cached decode depends on who looked at the parseable_str first: step %d (%s) answered `%s` after %s had "
+                        "looked at the same object, but `%s` on a fresh one" % (i, steps[i], x[:80], ",".join(steps[:i]) or "nothing", y[:80]))
+        raw = _ref_b58dec(text)
+        good = raw is not None and len(raw) >= 4 and _dsha4(raw[:-4]) == raw[-4:]
+        for st, r in zip(steps, shared):
+            if st == "b58sha" and (r.startswith("ok") != good or (good and unhx(r[3:]) != raw[:-4])):
+                return "parse_b58_double_sha256 on a shared parseable_str does not follow the checksum rule"
     elif k == "bech32chk":
         spec = int(a[3])
         if spec in (1, 2) and not out.endswith(" %d" % spec):
@@ -412,6 +497,10 @@ def neighbours(op, rng):
         yield "bech32raw " + s2h(t.lower())
         if k == "bech32dec":
             yield "bech32dec %s %s" % (a[1], s2h(t.lower()))
+    elif k == "pstr_seq":
+        steps = a[2].split(",")
+        for x, y in itertools.permutations(sorted(set(steps)), 2):
+            yield "pstr_seq %s %s,%s" % (a[1], x, y)
     elif k == "convertbits":
         data = parse_ints(a[1])
         yield "convertbits %s 8 5 1" % show_list(x & 255 for x in data)
@@ -669,3 +758,48 @@ def gen(ctx, emit):
             if all(x < 256 for x in data):
                 conv = _ref_to5(bytes(data))
                 emit("convertbits %s 5 8 0" % show_list(conv))
+
+    # ---------------------------------------------------------------- parseable_str: several decoders on ONE object
+    import hashlib as _hl
+
+    def grs4(b):
+        return _hl.sha256(grs_stub.PREFIX + b).digest()[:4]
+
+    h160 = bytes(range(1, 21))
+    texts = []
+    for payload in (b"\x00" + h160, b"\x05" + h160, b"\x24" + h160, b"\x80" + b"\x07" * 32 + b"\x01", b"\x6f" + h160, b"", b"\x00"):
+        texts.append(_ref_b58enc(payload + _dsha4(payload)))          # Bitcoin-style checksum
+        texts.append(_ref_b58enc(payload + grs4(payload)))            # Groestl-style checksum (stand-in hash)
+        texts.append(_ref_b58enc(payload + b"\x00\x00\x00\x00"))      # wrong for both
+    texts += [_ref_segwit("bc", 0, h160), _ref_segwit("grs", 0, h160), _ref_segwit("ltc", 1, bytes(32)), _ref_segwit("bc", 0, h160)[:-1] + "q",
+              "", "1", "0", "bc1", "not base58!", "é"]
+    codec = ["b58", "b58sha", "b58grs", "bech32"]
+    nets = ["net:%s.%s" % (n, m) for n in ("btc", "grs", "ltc") for m in ("address", "wif")]
+    for t in texts:
+        for x, y in itertools.permutations(codec + ["net:grs.address", "net:btc.address"], 2):
+            emit("pstr_seq %s %s,%s" % (s2h(t), x, y))
+        for perm in itertools.permutations(codec):
+            emit("pstr_seq %s %s" % (s2h(t), ",".join(perm)))
+        emit("pstr_seq %s b58sha,b58sha,b58grs,b58grs,b58sha" % s2h(t))
+    pool = codec + nets + ["net:xtn.address", "net:btc.p2sh", "net:grs.p2pkh", "net:btc.p2pkh_segwit", "net:grs.secret", "net:btc.bip32"]
+    for _ in range(ctx.n(700, 15000)):
+        r = rng.random()
+        payload = bytes([rng.choice([0, 5, 0x24, 0x80, 0x6f, rng.randrange(256)])]) + rb(rng.choice([20, 20, 32, 33, rng.randrange(0, 40)]))
+        if r < 0.3:
+            t = _ref_b58enc(payload + _dsha4(payload))
+        elif r < 0.6:
+            t = _ref_b58enc(payload + grs4(payload))
+        elif r < 0.7:
+            t = _corrupt(rng, _ref_b58enc(payload + _dsha4(payload)) or "1", 1, ALPHA)
+        elif r < 0.9:
+            hrp = rng.choice(["bc", "grs", "ltc", "tb"])
+            ver = rng.choice([0, 1])
+            t = _ref_segwit(hrp, ver, rb(20 if rng.random() < 0.5 else 32))
+            if rng.random() < 0.2:
+                t = _corrupt(rng, t, 1, CHARSET)
+        else:
+            t = "".join(rng.choice(ALPHA + "0OIl1 ") for _ in range(rng.randint(0, 40)))
+        steps = [rng.choice(pool) for _ in range(rng.randint(2, 4))]
+        if rng.random() < 0.4:
+            steps[0] = rng.choice(["b58grs", "net:grs.address", "net:grs.wif"])
+        emit("pstr_seq %s %s" % (s2h(t), ",".join(steps)))
